@@ -676,3 +676,22 @@ func (r *Run) ValueUnder(fn *ssa.Function, v ssa.Value, s Sigma) string {
 func (r *Run) ArgUnder(fn *ssa.Function, ci ssa.CallInstruction, i int, s Sigma) string {
 	return r.ValueUnder(fn, CallArgs(ci)[i], s)
 }
+
+// ExpectMapEntry: fn must contain a map update m[key] = val with the map
+// origin matching mapGlob, the key origin equal to keyDesc and the value
+// origin matching valGlob; no update of that key may carry another value.
+func (r *Run) ExpectMapEntry(fn *ssa.Function, key, mapGlob, keyDesc, valGlob string) {
+	n := 0
+	eachInstr(fn, func(in ssa.Instruction) {
+		mu, ok := in.(*ssa.MapUpdate)
+		if !ok || !glob(mapGlob, r.D.D(mu.Map)) || r.D.D(mu.Key) != keyDesc {
+			return
+		}
+		n++
+		got := r.D.D(mu.Value)
+		r.Check(key, anyGlob(valGlob, got), r.Where(mu), fmt.Sprintf("%s[%s] ← %s (expected %s)", r.D.D(mu.Map), keyDesc, got, valGlob))
+	})
+	if n == 0 {
+		r.Fail(key, r.FnPos(fn), fmt.Sprintf("no map update %s[%s] in %s", mapGlob, keyDesc, FuncName(fn)))
+	}
+}
